@@ -346,6 +346,23 @@ def If(c, a, b):
     return z3.If(c, a, b)
 
 
+RDIV = z3.Function("rdiv", RealS, RealS, RealS)
+
+
+def rdiv(a, b, facts=None):
+    """real division a/b.  A numeral divisor stays interpreted; a symbolic divisor goes through the
+    function symbol `rdiv`, tied to the reals by the ground fact  b != 0 => rdiv(a,b)*b == a  (appended
+    to `facts`).  Two syntactically different but provably equal quotients are then equal by congruence,
+    which the nonlinear solver does not find reliably."""
+    a, b = to_real(a), to_real(b)
+    if z3.is_rational_value(simp(b)):
+        return a / b
+    q = RDIV(a, b)
+    if facts is not None:
+        facts.append(Implies(b != 0, q * b == a))
+    return q
+
+
 def to_real(e):
     if e.sort() == RealS:
         return e
